@@ -29,6 +29,8 @@ func checkC16(r *Run) {
 	coreReturnRule(r, "R7")
 	r.Rule("R8", "the values bound to the parameters are owned by the activation: the buffer they are collected in is built per call, not kept in the function object or the evaluator (a nested call of the same function would overwrite it)", 1)
 	uf := r.W.userFunctionEval()
+	r.Rule("R10", "the parameter list of a function literal is its own: no list of nodes the parser stores into the tree or returns is built in a buffer kept in the parser or a package variable", 1)
+	parserBuffersRule(r, "R10")
 	r.Rule("R9", "the scope of a call extends the caller's: the scope installed is New() of the scope current on entry, nothing but parameter names is Set on it before the body runs, and the caller's scope is back at every exit; a call that does not fail has run the body", 1)
 	callScopeRuleSSA(r, "R9")
 	activationBuffersRule(r, "R8", func(fn *ssa.Function) bool {
